@@ -2,15 +2,31 @@
 # usage: tools/mutcheck.sh <patch.diff> <PROPERTY> [check args...]
 # Applies the patch to /repo, runs the property's check, restores /repo. Prints the
 # check's exit status; exits 0 iff the check reported a violation (exit 1).
+# With MUTCHECK_SCRATCH=1 the patch is applied to a scratch worktree of /repo under /tmp
+# (removed afterwards) and the check is pointed at it with --repo, so that /repo itself
+# stays untouched while other checks are running against it.
 patch="$1"; prop="$2"; shift 2
 cd /verif || exit 2
-if ! git -C /repo diff --quiet; then echo "/repo has uncommitted changes" >&2; exit 2; fi
-case "$patch" in /*) ;; *) patch="/verif/$patch";; esac; git -C /repo apply "$patch" || { echo "patch does not apply" >&2; exit 2; }
+case "$patch" in /*) ;; *) patch="/verif/$patch";; esac
+if [ -n "$MUTCHECK_SCRATCH" ]; then
+  wt=/tmp/mutrepo.$$
+  git -C /repo worktree add -q --detach "$wt" HEAD || exit 2
+  git -C "$wt" apply "$patch" || { echo "patch does not apply" >&2; git -C /repo worktree remove --force "$wt"; exit 2; }
+  repoarg="--repo $wt"
+else
+  if ! git -C /repo diff --quiet; then echo "/repo has uncommitted changes" >&2; exit 2; fi
+  git -C /repo apply "$patch" || { echo "patch does not apply" >&2; exit 2; }
+  repoarg=""
+fi
 cp evidence/$prop.json /tmp/mutcheck.$$.ev 2>/dev/null
-./check "$prop" "$@" > /tmp/mutcheck.$$.out 2>&1
+./check "$prop" $repoarg "$@" > /tmp/mutcheck.$$.out 2>&1
 st=$?
 [ -f /tmp/mutcheck.$$.ev ] && mv /tmp/mutcheck.$$.ev evidence/$prop.json
-git -C /repo checkout -- . 
+if [ -n "$MUTCHECK_SCRATCH" ]; then
+  git -C /repo worktree remove --force "$wt"
+else
+  git -C /repo checkout -- .
+fi
 grep -E "^VIOLATION|HELD|INCONCLUSIVE|SPURIOUS" /tmp/mutcheck.$$.out | head -5
 rm -f /tmp/mutcheck.$$.out
 echo "check exit=$st"
